@@ -51,7 +51,7 @@ var props = map[string]propCfg{
 		Quick: tierCfg{Checks: 3, Shards: 4, Timeout: d("15m"), ShrinkTime: d("45s")},
 		Thor:  tierCfg{Checks: 12, Shards: 12, Timeout: d("60m"), ShrinkTime: d("180s")}},
 	"C09": {Level: "translation_validation",
-		Quick: tierCfg{Checks: 3, Shards: 4, Timeout: d("15m"), ShrinkTime: d("45s")},
+		Quick: tierCfg{Checks: 4, Shards: 8, Timeout: d("15m"), ShrinkTime: d("45s")},
 		Thor:  tierCfg{Checks: 12, Shards: 12, Timeout: d("60m"), ShrinkTime: d("180s")}},
 	"C07": {Level: "exploration",
 		Quick: tierCfg{Checks: 60, Shards: 8, Timeout: d("15m"), ShrinkTime: d("45s")},
